@@ -1,5 +1,90 @@
 package main
 
-func registerMore(e *Engine) {}
+import (
+	"golang.org/x/tools/go/ssa"
+)
 
-func cmdSelfcheck(args []string) int { return 0 }
+func cmdSelfcheck(args []string) int { return selfcheck() }
+
+// regionBV reads n bytes of a region as one big-endian bit-vector (byte 0 most significant).
+func (ex *Exec) regionBV(r Region, n int) *Term {
+	c := ex.ctx
+	t := ex.regAt(r, c64(c, 0))
+	for i := 1; i < n; i++ {
+		t = c.Concat(t, ex.regAt(r, c64(c, uint64(i))))
+	}
+	return t
+}
+
+func (ex *Exec) storeArr(p Value, t *Term, n int) {
+	ptr := p.(Ptr)
+	ex.store(ptr, BytesV{ex.bvNode(t, n, true), c64(ex.ctx, uint64(n))})
+}
+
+type dhKey struct {
+	scalar *Term
+	pub    *Term
+}
+
+// registerDHKey adds the X25519 commutativity instances for a new keypair:
+// X(s_i, pub_j) == X(s_j, pub_i) for all registered keypairs j (documented DH property;
+// for Elligator "dirty" public keys it holds because X25519 clamps the scalar).
+func (ex *Exec) registerDHKey(scalar, pub *Term) {
+	c := ex.ctx
+	keys, _ := ex.st["dhkeys"].([]dhKey)
+	for _, k := range keys {
+		if k.scalar == scalar {
+			return
+		}
+	}
+	for _, k := range keys {
+		ex.addAxiom(c.Eq(c.UF("x25519", BV(256), scalar, k.pub), c.UF("x25519", BV(256), k.scalar, pub)))
+	}
+	ex.st["dhkeys"] = append(keys, dhKey{scalar, pub})
+}
+
+func registerMore(e *Engine) {
+	e.reg("golang.org/x/crypto/curve25519.ScalarMult", func(ex *Exec, fn *ssa.Function, args []Value) (Value, *PanicV) {
+		s := ex.regionBV(ex.arrPtrRegion(args[1]), 32)
+		p := ex.regionBV(ex.arrPtrRegion(args[2]), 32)
+		ex.storeArr(args[0], ex.ctx.UF("x25519", BV(256), s, p), 32)
+		return nil, nil
+	})
+	e.reg("golang.org/x/crypto/curve25519.ScalarBaseMult", func(ex *Exec, fn *ssa.Function, args []Value) (Value, *PanicV) {
+		s := ex.regionBV(ex.arrPtrRegion(args[1]), 32)
+		pub := ex.ctx.UF("x25519base", BV(256), s)
+		ex.registerDHKey(s, pub)
+		ex.storeArr(args[0], pub, 32)
+		return nil, nil
+	})
+	ell := repoMod + "/internal/x25519ell2"
+	e.reg(ell+".ScalarBaseMult", func(ex *Exec, fn *ssa.Function, args []Value) (Value, *PanicV) {
+		c := ex.ctx
+		s := ex.regionBV(ex.arrPtrRegion(args[2]), 32)
+		tweak := argTerm(ex, args[3])
+		ok := c.UF("ell2ok", BoolSort, s)
+		if !ex.branch(ok) {
+			return c.Bool(false), nil
+		}
+		pub := c.UF("ell2pub", BV(256), s)
+		repr := c.UF("ell2repr", BV(256), s, tweak)
+		// decode(representative) == public key (C07 is about the real code; here it is the contract)
+		ex.addAxiom(c.Eq(c.UF("ell2dec", BV(256), c.BAnd(repr, ell2Mask(c))), pub))
+		ex.registerDHKey(s, pub)
+		ex.storeArr(args[0], pub, 32)
+		ex.storeArr(args[1], repr, 32)
+		return c.Bool(true), nil
+	})
+	e.reg(ell+".RepresentativeToPublicKey", func(ex *Exec, fn *ssa.Function, args []Value) (Value, *PanicV) {
+		c := ex.ctx
+		r := ex.regionBV(ex.arrPtrRegion(args[1]), 32)
+		ex.storeArr(args[0], c.UF("ell2dec", BV(256), c.BAnd(r, ell2Mask(c))), 32)
+		return nil, nil
+	})
+}
+
+// byte 31 (least significant byte of the big-endian reading) & 0x3f
+func ell2Mask(c *Ctx) *Term {
+	ones := c.BNot(c.zero(256))
+	return c.BAnd(ones, c.BNot(c.BVConst(0xc0, 256)))
+}
